@@ -143,3 +143,72 @@ Proof.
   rewrite !count_app, count_map_Ctor, count_map_Dtor, count_map_Ctor_Dtor, count_map_Dtor_Ctor.
   rewrite (proj1 (NoDup_count_occ' Nat.eq_dec (concat groups)) Hnd c Hin). lia.
 Qed.
+
+(* ---------- pvCreateRaw with its funcIndex bookkeeping, statement by statement ----------
+     size_t funcIndex = 0;
+     try { size_t funcCount = mFuncRecords.GetCount();
+           for (; funcIndex < funcCount; ++funcIndex) mFuncRecords[funcIndex].createFunc(...); }
+     catch (...) { for (size_t i = 0; i < funcIndex; ++i) mFuncRecords[i].destroyFunc(...); throw; }          *)
+Fixpoint create_raw_idx (fuel : nat) (k : option nat) (groups : list (list nat)) (funcIndex : nat) : list ev * bool :=
+  match fuel with
+  | O => ([], true)
+  | S f =>
+    if Nat.ltb funcIndex (length groups) then
+      let '(t, ok, k1) := create_group k (nth funcIndex groups []) in
+      if ok then let '(t2, ok2) := create_raw_idx f k1 groups (S funcIndex) in (t ++ t2, ok2)
+      else (t ++ concat (map (map Dtor) (firstn funcIndex groups)), false)
+    else ([], true)
+  end.
+
+Lemma firstn_length_app {A} (l l' : list A) : firstn (length l) (l ++ l') = l.
+Proof. induction l; simpl; [destruct l'; reflexivity|f_equal; auto]. Qed.
+
+Lemma nth_length_app {A} (l : list A) x l' d : nth (length l) (l ++ x :: l') d = x.
+Proof. induction l; simpl; auto. Qed.
+
+Lemma create_raw_idx_S f k groups funcIndex :
+  create_raw_idx (S f) k groups funcIndex =
+    if Nat.ltb funcIndex (length groups) then
+      let '(t, ok, k1) := create_group k (nth funcIndex groups []) in
+      if ok then let '(t2, ok2) := create_raw_idx f k1 groups (S funcIndex) in (t ++ t2, ok2)
+      else (t ++ concat (map (map Dtor) (firstn funcIndex groups)), false)
+    else ([], true).
+Proof. reflexivity. Qed.
+
+(* the index loop is the structural model the theorems are about *)
+Lemma create_raw_idx_refines rest : forall k done,
+  create_raw_idx (S (length rest)) k (done ++ rest) (length done) = create_raw k done rest.
+Proof.
+  induction rest as [|g gs IH]; intros k done.
+  - rewrite create_raw_idx_S. cbn [create_raw length]. rewrite app_nil_r, Nat.ltb_irrefl. reflexivity.
+  - cbn [create_raw length]. rewrite create_raw_idx_S.
+    assert (Hlt : Nat.ltb (length done) (length (done ++ g :: gs)) = true).
+    { apply Nat.ltb_lt. rewrite app_length. simpl. lia. }
+    rewrite Hlt, nth_length_app.
+    destruct (create_group k g) as [[t ok] k1]. destruct ok.
+    + replace (done ++ g :: gs) with ((done ++ [g]) ++ gs) by (rewrite <- app_assoc; reflexivity).
+      replace (S (length done)) with (length (done ++ [g])) by (rewrite app_length; simpl; lia).
+      rewrite IH. reflexivity.
+    + rewrite firstn_length_app, concat_map. reflexivity.
+Qed.
+
+Theorem create_raw_idx_ok groups k : create_raw_idx (S (length groups)) k groups 0 = create_raw k [] groups.
+Proof. apply (create_raw_idx_refines groups k []). Qed.
+
+(* the bookkeeping matters: with `++funcIndex` BEFORE the createFunc call (wave-2 seed a) the group whose construction
+   failed -- and which pvCreate's own catch blocks already cleaned up -- is destroyed again by the outer catch *)
+Fixpoint create_raw_preinc (fuel : nat) (k : option nat) (groups : list (list nat)) (funcIndex : nat) : list ev * bool :=
+  match fuel with
+  | O => ([], true)
+  | S f =>
+    if Nat.ltb funcIndex (length groups) then
+      let '(t, ok, k1) := create_group k (nth funcIndex groups []) in
+      if ok then let '(t2, ok2) := create_raw_preinc f k1 groups (S funcIndex) in (t ++ t2, ok2)
+      else (t ++ concat (map (map Dtor) (firstn (S funcIndex) groups)), false)
+    else ([], true)
+  end.
+
+Example preincrement_destroys_twice :
+  fst (create_raw_preinc 3 (Some 1) [[0; 1]] 0) = [Ctor 0; Dtor 0; Dtor 0; Dtor 1] /\
+  fst (create_raw_idx 3 (Some 1) [[0; 1]] 0) = [Ctor 0; Dtor 0].
+Proof. vm_compute. split; reflexivity. Qed.
